@@ -210,6 +210,10 @@ def generate(tier, seed):
         yield "vector", {"vec": vec}, i < 10
     # D9 witness class
     yield "sets", {"a": [1, 2], "b": [2, 3], "ka": "set", "kb": "set"}, True
+    # plain lists / tuples / sets of strings whose only missing marker is a float nan
+    for ka, kb in (("list", "list"), ("tuple", "list"), ("list", "set"), ("ndarray", "list")):
+        yield "sets", {"a": ["a", "b", "__nan__"], "b": ["a", "__nan__"], "ka": ka, "kb": kb}, True
+        yield "sets", {"a": ["x", "y", "z"], "b": ["w", "__nan__", "x"], "ka": ka, "kb": kb}, True
     # infinite values are ordinary elements (only missing values are dropped)
     for ka, kb in (("list", "list"), ("series_float", "series_float"), ("ndarray_float", "list"), ("series_float", "set")):
         yield "sets", {"a": [0.5, "__inf__", 2.0], "b": ["__inf__", 3.0, 0.5], "ka": ka, "kb": kb}, True
